@@ -560,6 +560,17 @@ func (e *Engine) solveSet(o *checkOpts, obls []*Obligation) {
 	}
 }
 
+// trustedAmong: the callee contracts that are assumed without a proof of their own (trusted / abstract).
+func trustedAmong(specs *Specs, keys []string) []string {
+	var out []string
+	for _, k := range keys {
+		if ct, ok := specs.Contracts[k]; ok && ct.Trusted {
+			out = append(out, k)
+		}
+	}
+	return out
+}
+
 // unreachableSites lists return sites all of whose probed paths are infeasible (expected for error branches a callee's
 // contract rules out; a success return in this list means its postconditions were never really checked).
 func unreachableSites(m map[string]*retGroup) []string {
@@ -878,6 +889,7 @@ func (e *Engine) report(o *checkOpts, units []*Unit, start time.Time, loadSecs, 
 				"abstracted_calls":         dedupe(skipped),
 				"inlined_callees":          dedupe(inlined),
 				"callee_contracts_used":    dedupe(assumedContracts),
+				"trusted_contracts_used":   trustedAmong(e.specs, dedupe(assumedContracts)),
 				"intrinsic_contracts_used": dedupe(intr),
 				"unit_assumptions":         dedupe(unitAssumes),
 			},
@@ -961,7 +973,7 @@ func standingAssumptions() []string {
 		"termination is not proved",
 		"calls listed under abstracted_calls (logging, metrics) are treated as no-ops",
 		"calls listed under unmodelled_calls have unconstrained results (and, unless pure, an unconstrained heap)",
-		"callee contracts listed under callee_contracts_used are assumed at call sites and proved separately in their own unit",
+		"callee contracts listed under callee_contracts_used are assumed at call sites and proved separately in their own unit, except those repeated under trusted_contracts_used (trusted / abstract: assumed only)",
 	}
 }
 
